@@ -188,5 +188,23 @@ def enumerations(tier, shard, nshards):
             c["nofile"] = 64 if tier == "quick" else 128
             yield c
 
+        def longs():
+            import random
+
+            rnd = random.Random(5)
+            big = "".join(rnd.choice("ACGT") for _ in range(60010))
+            gfa = "S\ts1\t%s\tLN:i:60010\tSN:Z:chr1\tSO:i:0\tSR:i:0\nS\ts2\tACGTAC\tLN:i:6\tSN:Z:chr1\tSO:i:60010\tSR:i:0\nL\ts1\t+\ts2\t+\t0M\n" % big
+            short = lambda nm, a: "%s\t30\t0\t30\t+\t>s1\t60010\t%d\t%d\t30\t30\t60\tcg:Z:30=" % (nm, a, a + 30)
+            long_ = "zlong\t60005\t0\t60005\t+\t>s1\t60010\t2\t60007\t60005\t60005\t60\tcg:Z:60005="
+            fasta = "".join(">%s\n%s\n" % (nm, big[a:a + 30]) for nm, a in (("ya", 10), ("yb", 500), ("yc", 900), ("yd", 40))) + ">zlong\n%s\n" % big[2:60007]
+            for order in (["ya", "zlong", "yb", "yc"], ["zlong", "ya", "yb", "yd", "yc"], ["ya", "yb", "zlong"]):
+                pos = {"ya": 10, "yb": 500, "yc": 900, "yd": 40}
+                gaf = [long_ if nm == "zlong" else short(nm, pos[nm]) for nm in order]
+                for cores, batch in ((1, 2), (2, 1), (2, 2), (3, 1)):
+                    yield {"gfa": gfa, "gaf": gaf, "fasta": fasta, "cores": cores, "batch": batch, "choices": [0, 1, 0, 2], "kind": "sim"}
+
+        yield ("records of more than 60 000 read bases (passed through unchanged) among realigned ones: 3 orders x 4 cores/batch settings",
+               longs(), True)
+
         yield ("real multiprocessing, %d one-record batches, cores=3, open-files limit lowered" % (160 if tier == "quick" else 600),
                many(), True)
